@@ -126,6 +126,7 @@ def run_case(case):
     nontrivial = False
     removed_once = set()
     graveyard = {}     # id -> last removed object with that id
+    rejected = {}      # id -> last object whose registration under that id was rejected
     labels = set()
     ops = list(case["ops"]) + [{"op": "step", "n": 1}]
 
@@ -154,7 +155,12 @@ def run_case(case):
                 obj = FalsySystem(sid, model, log, token, priority=given)
             else:
                 obj = RecSystem(sid, model, log, token, priority=given)
-            if op.get("same") and i in graveyard and i not in live:
+            if op.get("same") and i in rejected and i not in live:
+                obj = rejected.pop(i)               # an object whose earlier registration was rejected (id was taken) is registered now
+                prio = int(obj.priority)
+                token = obj._token
+                labels.add("rejected-object-registered-later")
+            elif op.get("same") and i in graveyard and i not in live:
                 obj = graveyard.pop(i)              # the very object that was removed earlier is registered again
                 prio = int(obj.priority)
                 token = obj._token
@@ -162,6 +168,7 @@ def run_case(case):
             if i in live:
                 expect_raises("duplicate-add-keyerror", KeyError, model.systems.add_system, obj)
                 labels.add("rejected-add")
+                rejected[i] = obj
             else:
                 model.systems.add_system(obj)
                 seq += 1
